@@ -407,6 +407,13 @@ def run(ctx):
                 res.oracle_failures.append(("bins() answers differently after a call of bins.%s(%s)" % (name, kw),
                                             {"probe": probe, "before": before, "after": after}))
                 break
+    # a coordinate that is exactly 0 is a coordinate (bin 1 under the GFF convention), not a missing one
+    for (a, b) in [(0, 5), (0, 0), (5, 0), (0, SIZES[0] + 3)]:
+        f0 = Feature(seqid="c", start=a, end=b)
+        res.evaluations += 1
+        if f0.bin != B.bins(a, b, one=True) or f0.astuple()[-1] != B.bins(a, b, one=True):
+            res.oracle_failures.append(("Feature.bin differs from bins(start, end) for a coordinate 0",
+                                        {"start": a, "end": b, "Feature.bin": canon(f0.bin), "bins": canon(B.bins(a, b, one=True))}))
     f = Feature(seqid="c", start=".", end=".")
     if f.bin is not None:
         res.oracle_failures.append(("Feature without coordinates has a bin", {"bin": canon(f.bin)}))
